@@ -542,6 +542,12 @@ Hypothesis Hcall0 : forall f, P (QCall0 f).
 Hypothesis Hbinop : forall o a b, P a -> P b -> P (QBinop o a b).
 Hypothesis Hdef : forall f ps body rest, P body -> P rest -> P (QDef f ps body rest).
 Hypothesis Hcallf : forall f args, Forall P args -> P (QCallF f args).
+Definition Pkey (k : list BinNums.N + query) : Prop := match k with inl _ => True | inr kq => P kq end.
+Definition Pent (e : (list BinNums.N + query) * query) : Prop := Pkey (fst e) /\ P (snd e).
+Hypothesis Hobject : forall es, Forall Pent es -> P (QObject es).
+Hypothesis Hbindp : forall s p b, P s -> P b -> P (QBindP s p b).
+Hypothesis Hindexq : forall t q, P t -> P q -> P (QIndexQ t q).
+Hypothesis Hslice : forall t a b, P t -> P a -> P b -> P (QSlice t a b).
 
 Fixpoint query_ind' (q : query) : P q :=
   match q with
@@ -570,6 +576,18 @@ Fixpoint query_ind' (q : query) : P q :=
   | QCallF f args => Hcallf f args
       ((fix go (l : list query) : Forall P l :=
           match l with [] => Forall_nil P | x :: r => Forall_cons x (query_ind' x) (go r) end) args)
+  | QBindP s p b => Hbindp s p b (query_ind' s) (query_ind' b)
+  | QIndexQ t q => Hindexq t q (query_ind' t) (query_ind' q)
+  | QSlice t a b => Hslice t a b (query_ind' t) (query_ind' a) (query_ind' b)
+  | QObject es => Hobject es
+      ((fix go (l : list ((list BinNums.N + query) * query)) : Forall Pent l :=
+          match l with
+          | [] => Forall_nil Pent
+          | (k, qv) :: r =>
+              Forall_cons (k, qv)
+                (@conj (Pkey k) (P qv)
+                   (match k as k0 return Pkey k0 with inl _ => I | inr kq => query_ind' kq end) (query_ind' qv)) (go r)
+          end) es)
   end.
 End QInd.
 
@@ -587,7 +605,7 @@ Ltac dcomp :=
 Ltac qind q :=
   induction q as [ | c | a b IHa IHb | a b IHa IHb | | t IHt | t k IHt | c a b IHc IHa IHb | a b IHa IHb
                  | a h IHa IHh | q IHq | s x i u IHs IHi IHu | s x i u e IHs IHi IHu IHe | l b IHb | l
-                 | s x b IHs IHb | x | f | o a b IHa IHb | f ps body rest IHbody IHrest | f args IHargs ] using query_ind'.
+                 | s x b IHs IHb | x | f | o a b IHa IHb | f ps body rest IHbody IHrest | f args IHargs | es IHes | s p b IHs IHb | t q IHt IHq | t a b IHt IHa IHb ] using query_ind'.
 
 Lemma comp_args_mono : forall (C : query -> nat -> nat -> res) l p sn cas p' s2, comp_args C l p sn = Some (cas, p', s2) ->
   Forall (fun a => forall s p0 cb nvc s1, C a s p0 = Some (cb, nvc, s1) -> s <= s1) l -> sn <= s2.
@@ -599,8 +617,170 @@ Proof.
     inversion HF; subst. apply IH in Er; auto. apply H2 in Ea. lia.
 Qed.
 
+(* ---- comp_ents, generically in the compile function of the sub-queries ---- *)
+Definition ent := ((list BinNums.N + query) * query)%type.
+Definition EntP (P : query -> Prop) (e : ent) : Prop := Pkey P (fst e) /\ P (snd e).
+Lemma comp_ents_mono : forall (C : query -> nat -> nat -> nat -> res) v (es : list ent) p n s cs n' s',
+  comp_ents C v es p n s = Some (cs, n', s') ->
+  Forall (EntP (fun a => forall p n s c n' s', C a p n s = Some (c, n', s') -> n <= n' /\ s <= s')) es -> n <= n' /\ s <= s'.
+Proof.
+  induction es as [|[k qv] r IH]; intros p n s cs n' s' H HF; simpl in H.
+  - inversion H; subst. lia.
+  - inversion HF as [|? ? [Hk Hv] HF']; subst. simpl in Hk, Hv.
+    destruct k as [str|kq].
+    + destruct (C qv (p + length [Ipush (VStr str)] + 1) n s) as [[[cv n2] s2]|] eqn:Ev; [|discriminate].
+      destruct (comp_ents C v r _ n2 s2) as [[[cr n3] s3]|] eqn:Er; [|discriminate]. inversion H; subst.
+      apply Hv in Ev. apply IH in Er; auto. lia.
+    + destruct (C kq (S p) n s) as [[[ck n1] s1]|] eqn:Ek; [|discriminate].
+      destruct (C qv (p + length (Iload v :: ck) + 1) n1 s1) as [[[cv n2] s2]|] eqn:Ev; [|discriminate].
+      destruct (comp_ents C v r _ n2 s2) as [[[cr n3] s3]|] eqn:Er; [|discriminate]. inversion H; subst.
+      apply Hk in Ek. apply Hv in Ev. apply IH in Er; auto. lia.
+Qed.
+Lemma comp_ents_ext : forall (C C' : query -> nat -> nat -> nat -> res) v (es : list ent),
+  Forall (EntP (fun a => forall p n s, C a p n s = C' a p n s)) es -> forall p n s, comp_ents C v es p n s = comp_ents C' v es p n s.
+Proof.
+  induction es as [|[k qv] r IH]; intros HF p n s; simpl; [reflexivity|].
+  inversion HF as [|? ? [Hk Hv] HF']; subst. simpl in Hk, Hv.
+  destruct k as [str|kq].
+  - rewrite Hv. destruct (C' qv _ n s) as [[[cv n2] s2]|]; [|reflexivity]. rewrite (IH HF'). reflexivity.
+  - rewrite Hk. destruct (C' kq (S p) n s) as [[[ck n1] s1]|]; [|reflexivity].
+    rewrite Hv. destruct (C' qv _ n1 s1) as [[[cv n2] s2]|]; [|reflexivity]. rewrite (IH HF'). reflexivity.
+Qed.
+Fixpoint ents_nvars (es : list ent) : nat :=
+  match es with
+  | [] => 0
+  | (k, qv) :: r => match k with inl _ => 0 | inr kq => nvars kq end + nvars qv + ents_nvars r
+  end.
+Lemma nvars_object : forall e es, nvars (QObject (e :: es)) = S (ents_nvars (e :: es)).
+Proof. intros [k qv] es. reflexivity. Qed.
+Lemma comp_ents_nvars : forall (C : query -> nat -> nat -> nat -> res) v (es : list ent) p n s cs n' s',
+  comp_ents C v es p n s = Some (cs, n', s') ->
+  Forall (EntP (fun a => forall p n s c n' s', C a p n s = Some (c, n', s') -> n' = n + nvars a)) es -> n' = n + ents_nvars es.
+Proof.
+  induction es as [|[k qv] r IH]; intros p n s cs n' s' H HF; simpl in H.
+  - inversion H; subst. simpl. lia.
+  - inversion HF as [|? ? [Hk Hv] HF']; subst. simpl in Hk, Hv.
+    destruct k as [str|kq].
+    + destruct (C qv (p + length [Ipush (VStr str)] + 1) n s) as [[[cv n2] s2]|] eqn:Ev; [|discriminate].
+      destruct (comp_ents C v r _ n2 s2) as [[[cr n3] s3]|] eqn:Er; [|discriminate]. inversion H; subst.
+      apply Hv in Ev. apply IH in Er; auto. simpl. lia.
+    + destruct (C kq (S p) n s) as [[[ck n1] s1]|] eqn:Ek; [|discriminate].
+      destruct (C qv (p + length (Iload v :: ck) + 1) n1 s1) as [[[cv n2] s2]|] eqn:Ev; [|discriminate].
+      destruct (comp_ents C v r _ n2 s2) as [[[cr n3] s3]|] eqn:Er; [|discriminate]. inversion H; subst.
+      apply Hk in Ek. apply Hv in Ev. apply IH in Er; auto. simpl. lia.
+Qed.
+Lemma Forall_EntP_impl : forall (P Q : query -> Prop) (es : list ent), (forall a, P a -> Q a) -> Forall (EntP P) es -> Forall (EntP Q) es.
+Proof.
+  intros P Q es H HF. eapply Forall_impl; [|exact HF]. intros [k qv] [Hk Hv]. split; [destruct k; simpl in *; auto|simpl in *; auto].
+Qed.
+
+(* ---- compilePattern ---- *)
+Scheme pattern_mind := Induction for pattern Sort Prop
+  with parr_mind := Induction for parr Sort Prop
+  with pobj_mind := Induction for pobj Sort Prop.
+Combined Scheme pattern_mutind from pattern_mind, parr_mind, pobj_mind.
+
+Lemma pcomp_nvars :
+  (forall p cur nv c b n, pcomp p cur nv = (c, b, n) -> n = nv + pat_nvars p) /\
+  (forall l i v cur nv c b n, parr_comp l i v cur nv = (c, b, n) -> n = nv + parr_nvars l) /\
+  (forall l v cur nv c b n, pobj_comp l v cur nv = (c, b, n) -> n = nv + pobj_nvars l).
+Proof.
+  apply pattern_mutind; simpl; intros.
+  - inversion H; subst. lia.
+  - destruct (parr_comp l 0 (cur, nv) cur (S nv)) as [[c0 b0] n0] eqn:E. inversion H0; subst. apply H in E. lia.
+  - destruct (pobj_comp l (cur, nv) cur (S nv)) as [[c0 b0] n0] eqn:E. inversion H0; subst. apply H in E. lia.
+  - inversion H; subst. lia.
+  - destruct (pcomp p cur nv) as [[c1 b1] n1] eqn:E1. destruct (parr_comp r (S i) v cur n1) as [[c2 b2] n2] eqn:E2.
+    inversion H1; subst. apply H in E1. apply H0 in E2. lia.
+  - inversion H; subst. lia.
+  - destruct (pcomp p cur nv) as [[c1 b1] n1] eqn:E1. destruct (pobj_comp r v cur n1) as [[c2 b2] n2] eqn:E2.
+    inversion H1; subst. apply H in E1. apply H0 in E2. lia.
+  - destruct (pcomp p cur (S nv)) as [[c1 b1] n1] eqn:E1. destruct (pobj_comp r v cur n1) as [[c2 b2] n2] eqn:E2.
+    inversion H1; subst. apply H in E1. apply H0 in E2. lia.
+Qed.
+Lemma add_vars_lbls : forall bs ce, ce_lbls (add_vars ce bs) = ce_lbls ce.
+Proof. induction bs as [|[x y] r IH]; intros ce; simpl; auto. Qed.
+Lemma add_vars_ghost : forall bs ce, ce_ghost (add_vars ce bs) = ce_ghost ce.
+Proof. induction bs as [|[x y] r IH]; intros ce; simpl; auto. Qed.
+Lemma add_vars_env : forall bs ce, ce_env (add_vars ce bs) = map (fun e => (fst e, CV (snd e))) bs ++ ce_env ce.
+Proof. induction bs as [|[x y] r IH]; intros ce; simpl; auto. rewrite IH. reflexivity. Qed.
+
 Section CF.
 Variable tco : bool.
+
+(* compileIndex with a computed index / computed slice bounds *)
+Lemma comp_indexq_inv : forall t q ce tp cur pc nv sn cq nv' sn', compg tco (QIndexQ t q) ce tp cur pc nv sn = Some (cq, nv', sn') ->
+  keyc_index q = false /\ cur < sn /\ ce_lt ce sn = true /\ exists cb nb s1 ca na,
+    compg tco q ce None sn (S (S pc) + 2) 0 (S sn) = Some (cb, nb, s1) /\
+    compg tco t ce None s1 (S pc + length (wrap_exp (arg_code (cur, nv) (S (S pc)) sn cb nb)) + 2) 0 (S s1) = Some (ca, na, sn') /\
+    cq = Istore (cur, nv) :: wrap_exp (arg_code (cur, nv) (S (S pc)) sn cb nb) ++
+           arg_code (cur, nv) (S pc + length (wrap_exp (arg_code (cur, nv) (S (S pc)) sn cb nb))) s1 ca na ++ [Ipush VNull; Icall NIndex2] /\
+    nv' = S nv.
+Proof.
+  intros t q ce tp cur pc nv sn cq nv' sn' Hc. cbn -[Nat.add Nat.ltb Nat.eqb ce_lt arg_code wrap_exp keyc_index] in Hc.
+  destruct (keyc_index q); [discriminate|]. split; [reflexivity|]. cbn [negb andb] in Hc.
+  destruct (Nat.ltb_spec cur sn) as [Hlt|]; [|discriminate]. split; [exact Hlt|].
+  destruct (ce_lt ce sn) eqn:Hce; [|discriminate]. split; [reflexivity|]. cbn [andb] in Hc.
+  destruct (compg tco q ce None sn (S (S pc) + 2) 0 (S sn)) as [[[cb nb] s1]|] eqn:Eb; [|discriminate]. cbv iota beta in Hc.
+  match type of Hc with context [compg tco t ?ce0 ?t0 ?c0 ?p0 ?n0 ?s0] =>
+    destruct (compg tco t ce0 t0 c0 p0 n0 s0) as [[[ca na] s2]|] eqn:Ea; [|discriminate] end.
+  cbv iota beta in Hc. inversion Hc; subst. exists cb, nb, s1, ca, na. auto.
+Qed.
+Lemma comp_slice_inv : forall t a b ce tp cur pc nv sn cq nv' sn', compg tco (QSlice t a b) ce tp cur pc nv sn = Some (cq, nv', sn') ->
+  keyc_bound a && keyc_bound b = false /\ cur < sn /\ ce_lt ce sn = true /\ exists ca na s1 cb nb s2 ct nt0,
+    let ca' := arg_code (cur, nv) (S (S pc)) sn ca na in
+    let cb' := arg_code (cur, nv) (S (S pc) + length ca') s1 cb nb in
+    compg tco a ce None sn (S (S pc) + 2) 0 (S sn) = Some (ca, na, s1) /\
+    compg tco b ce None s1 (S (S pc) + length ca' + 2) 0 (S s1) = Some (cb, nb, s2) /\
+    compg tco t ce None s2 (S (S pc) + length ca' + length cb' + 1 + 2) 0 (S s2) = Some (ct, nt0, sn') /\
+    cq = Istore (cur, nv) :: Iexpbegin :: ca' ++ cb' ++ Iexpend ::
+           arg_code (cur, nv) (S (S pc) + length ca' + length cb' + 1) s2 ct nt0 ++ [Ipush VNull; Icall NSlice3] /\
+    nv' = S nv.
+Proof.
+  intros t a b ce tp cur pc nv sn cq nv' sn' Hc. cbn -[Nat.add Nat.ltb Nat.eqb ce_lt arg_code keyc_bound] in Hc.
+  destruct (keyc_bound a && keyc_bound b); [discriminate|]. split; [reflexivity|]. cbn [negb andb] in Hc.
+  destruct (Nat.ltb_spec cur sn) as [Hlt|]; [|discriminate]. split; [exact Hlt|].
+  destruct (ce_lt ce sn) eqn:Hce; [|discriminate]. split; [reflexivity|]. cbn [andb] in Hc.
+  destruct (compg tco a ce None sn (S (S pc) + 2) 0 (S sn)) as [[[ca na] s1]|] eqn:Ea; [|discriminate]. cbv iota beta in Hc.
+  match type of Hc with context [compg tco b ?ce0 ?t0 ?c0 ?p0 ?n0 ?s0] =>
+    destruct (compg tco b ce0 t0 c0 p0 n0 s0) as [[[cb nb] s2]|] eqn:Eb; [|discriminate] end. cbv iota beta in Hc.
+  match type of Hc with context [compg tco t ?ce0 ?t0 ?c0 ?p0 ?n0 ?s0] =>
+    destruct (compg tco t ce0 t0 c0 p0 n0 s0) as [[[ct nt0] s3]|] eqn:Et; [|discriminate] end.
+  cbv iota beta in Hc. inversion Hc; subst. exists ca, na, s1, cb, nb, s2, ct, nt0. cbv zeta. auto 8.
+Qed.
+
+(* compileBind with a destructuring pattern *)
+Lemma comp_bindp_inv : forall qs p qb ce tp cur pc nv sn cq nv' sn', compg tco (QBindP qs p qb) ce tp cur pc nv sn = Some (cq, nv', sn') ->
+  is_pvar p = false /\ pat_ok p = true /\
+  exists cs n1 s1 cp bs n2 cb, compg tco qs ce None cur (pc + 2) nv sn = Some (cs, n1, s1) /\
+    pcomp p cur n1 = (cp, bs, n2) /\ names_nodup bs = true /\
+    compg tco qb (add_vars ce bs) (tl_fb tp) cur (pc + 2 + length cs + length cp + 1) n2 s1 = Some (cb, nv', sn') /\
+    cq = Idup :: Iexpbegin :: cs ++ cp ++ Iexpend :: cb.
+Proof.
+  intros qs p qb ce tp cur pc nv sn cq nv' sn' Hc. cbn [compg] in Hc.
+  destruct (is_pvar p); [discriminate|]. destruct (pat_ok p); [|discriminate]. cbn [negb andb] in Hc.
+  split; [reflexivity|]. split; [reflexivity|].
+  destruct (compg tco qs ce None cur (pc + 2) nv sn) as [[[cs n1] s1]|] eqn:Es; [|discriminate].
+  destruct (pcomp p cur n1) as [[cp bs] n2] eqn:Ep.
+  destruct (names_nodup bs) eqn:En; [|discriminate].
+  match type of Hc with context [compg tco qb ?ce0 ?t0 ?c0 ?p0 ?n0 ?s0] =>
+    destruct (compg tco qb ce0 t0 c0 p0 n0 s0) as [[[cb n3] s2]|] eqn:Eb; [|discriminate] end.
+  inversion Hc; subst. exists cs, n1, s1, cp, bs, n2, cb. auto 8.
+Qed.
+
+(* compileObject *)
+Lemma comp_object_inv : forall C v e es pc nv sn cq nv' sn',
+  comp_object C v (e :: es) pc nv sn = Some (cq, nv', sn') ->
+  exists cs, comp_ents C v (e :: es) (S pc) (S nv) sn = Some (cs, nv', sn') /\
+    ((exists kcs w, ents_const cs = Some kcs /\ mk_obj kcs = inl w /\ cq = [Iconst w]) \/
+     (ents_const cs = None /\ cq = Istore v :: concat cs ++ [Iobject (length (e :: es))])).
+Proof.
+  intros C v e es pc nv sn cq nv' sn' Hc. unfold comp_object in Hc.
+  destruct (comp_ents C v (e :: es) (S pc) (S nv) sn) as [[[cs n1] s1]|] eqn:E; [|discriminate].
+  exists cs. destruct (ents_const cs) as [kcs|] eqn:Ek.
+  - destruct (mk_obj kcs) as [w|] eqn:Em; [|discriminate]. inversion Hc; subst. split; [reflexivity|]. left. exists kcs, w. auto.
+  - inversion Hc; subst. split; [reflexivity|]. right. auto.
+Qed.
 
 Lemma comp_mono : forall q ce tp cur pc nv sn cq nv' sn', compg tco q ce tp cur pc nv sn = Some (cq, nv', sn') -> nv <= nv' /\ sn <= sn'.
 Proof.
@@ -632,6 +812,18 @@ Proof.
       eapply (comp_args_mono _ _ _ _ _ _ _ Ea).
       eapply Forall_impl; [|exact IHargs]. simpl. intros a Ha s p0 cb nvc s1 Hca. apply Ha in Hca. lia.
     + inversion Hc; subst; lia.
+  - (* object *) destruct es as [|e es]; [inversion Hc; subst; lia|].
+    destruct (comp_object_inv _ _ _ _ _ _ _ _ _ _ Hc) as (cs & E & _).
+    apply comp_ents_mono in E; [lia|]. eapply Forall_EntP_impl; [|exact IHes]. simpl. intros a Ha p n s c n' s' H. eapply Ha; eauto.
+  - (* bindp *) change (compg tco (QBindP s p b) ce tp cur pc nv sn = Some (cq, nv', sn')) in Hc.
+    destruct (comp_bindp_inv _ _ _ _ _ _ _ _ _ _ _ _ Hc) as (_ & _ & cs & n1 & s1 & cp & bs & n2 & cb & Es & Ep & _ & Eb & _).
+    apply IHs in Es. apply IHb in Eb. apply pcomp_nvars in Ep. lia.
+  - (* indexq *) change (compg tco (QIndexQ t q) ce tp cur pc nv sn = Some (cq, nv', sn')) in Hc.
+    destruct (comp_indexq_inv _ _ _ _ _ _ _ _ _ _ _ Hc) as (_ & _ & _ & cb & nb & s1 & ca & na & Eb & Ea & _ & ->).
+    apply IHq in Eb. apply IHt in Ea. lia.
+  - (* slice *) change (compg tco (QSlice t a b) ce tp cur pc nv sn = Some (cq, nv', sn')) in Hc.
+    destruct (comp_slice_inv _ _ _ _ _ _ _ _ _ _ _ _ Hc) as (_ & _ & _ & ca & na & s1 & cb & nb & s2 & ct & nt0 & Ea & Eb & Et & _ & ->).
+    apply IHa in Ea. apply IHb in Eb. apply IHt in Et. lia.
 Qed.
 
 (* the compiler does not look at the ghost field of the environment *)
@@ -664,7 +856,7 @@ Ltac cg ce ce' :=
 Lemma comp_ghost : forall q ce ce', ce_env ce = ce_env ce' -> ce_lbls ce = ce_lbls ce' ->
   forall tp cur pc nv sn, compg tco q ce tp cur pc nv sn = compg tco q ce' tp cur pc nv sn.
 Proof.
-  qind q; intros ce ce' He Hl tp cur pc nv sn; cbn -[Nat.add Nat.ltb Nat.eqb ce_lt prelude param_env param_slots comp_args tl_body tail_call tl_fb emptycode transparent];
+  qind q; intros ce ce' He Hl tp cur pc nv sn; cbn -[Nat.add Nat.ltb Nat.eqb ce_lt prelude param_env param_slots comp_args tl_body tail_call tl_fb emptycode transparent comp_object arg_code wrap_exp keyc_index keyc_bound];
     try reflexivity; unfold ce_lt; rewrite ?He, ?Hl.
   - cg ce ce'.
   - cg ce ce'.
@@ -686,6 +878,17 @@ Proof.
     destruct args as [|a0 args']; [reflexivity|].
     rewrite (comp_args_ext (fun a s' p' => compg tco a (fun_env ce) None s' (p' + 2) 0 (S s')) (fun a s' p' => compg tco a (fun_env ce') None s' (p' + 2) 0 (S s'))); [reflexivity|].
     eapply Forall_impl; [|exact IHargs]. simpl. intros a Ha s p0. apply Ha; simpl; congruence.
+  - (* object *) destruct es as [|e es]; [reflexivity|]. unfold comp_object.
+    rewrite (comp_ents_ext (fun a p n s => compg tco a ce None cur p n s) (fun a p n s => compg tco a ce' None cur p n s)); [reflexivity|].
+    eapply Forall_EntP_impl; [|exact IHes]. simpl. intros a Ha p n s. apply Ha; auto.
+  - (* bindp *) destruct (negb (is_pvar p) && pat_ok p); [|reflexivity].
+    rewrite (IHs ce ce' He Hl). destruct (compg tco s ce' None cur (pc + 2) nv sn) as [[[cs n1] s1]|]; [|reflexivity].
+    destruct (pcomp p cur n1) as [[cp bs] n2]. destruct (names_nodup bs); [|reflexivity].
+    rewrite (IHb (add_vars ce bs) (add_vars ce' bs)); [reflexivity| |].
+    + rewrite !add_vars_env. congruence.
+    + rewrite !add_vars_lbls. exact Hl.
+  - (* indexq *) cg ce ce'.
+  - (* slice *) cg ce ce'.
 Qed.
 
 Lemma lookup_cf_cp : forall l f n y, lookup_cf f n l = Some (CP y) -> n = 0.
@@ -700,7 +903,7 @@ Qed.
 Lemma comp_forbid : forall pe q ce cur pc nv sn r,
   compg tco q ce (Some (pe, None)) cur pc nv sn = Some r -> compg tco q ce None cur pc nv sn = Some r.
 Proof.
-  intros pe. qind q; intros ce cur pc nv sn r Hc; cbn -[Nat.add Nat.ltb Nat.eqb ce_lt prelude param_env param_slots comp_args tl_body emptycode transparent] in Hc |- *;
+  intros pe. qind q; intros ce cur pc nv sn r Hc; cbn -[Nat.add Nat.ltb Nat.eqb ce_lt prelude param_env param_slots comp_args tl_body emptycode transparent comp_object arg_code wrap_exp keyc_index keyc_bound] in Hc |- *;
     try exact Hc;
     try (destruct (transparent b));
     repeat match goal with
@@ -726,6 +929,19 @@ Proof.
     end. exact Hc.
   - (* callf *) destruct (lookup_cf f (length args) (ce_env ce)) as [[y|p n|y]|]; try exact Hc.
     destruct args as [|a0 args']; [|exact Hc]. unfold tail_call in *. destruct (Nat.eqb pe p); [discriminate Hc|exact Hc].
+  (* bindp (twice: the case split on `transparent b` above also fired here) *)
+  - destruct r as [[cq nv'] sn'];
+    change (compg tco (QBindP s p b) ce (Some (pe, None)) cur pc nv sn = Some (cq, nv', sn')) in Hc;
+    destruct (comp_bindp_inv _ _ _ _ _ _ _ _ _ _ _ _ Hc) as (Hpv & Hok & cs & n1 & s1 & cp & bs & n2 & cb & Es & Ep & En & Eb & ->);
+    cbn [tl_fb] in Eb; apply IHb in Eb;
+    change (compg tco (QBindP s p b) ce None cur pc nv sn = Some (Idup :: Iexpbegin :: cs ++ cp ++ Iexpend :: cb, nv', sn'));
+    cbn [compg]; rewrite Hpv, Hok; cbn [negb andb]; rewrite Es, Ep, En; cbn [tl_fb]; rewrite Eb; reflexivity.
+  - destruct r as [[cq nv'] sn'];
+    change (compg tco (QBindP s p b) ce (Some (pe, None)) cur pc nv sn = Some (cq, nv', sn')) in Hc;
+    destruct (comp_bindp_inv _ _ _ _ _ _ _ _ _ _ _ _ Hc) as (Hpv & Hok & cs & n1 & s1 & cp & bs & n2 & cb & Es & Ep & En & Eb & ->);
+    cbn [tl_fb] in Eb; apply IHb in Eb;
+    change (compg tco (QBindP s p b) ce None cur pc nv sn = Some (Idup :: Iexpbegin :: cs ++ cp ++ Iexpend :: cb, nv', sn'));
+    cbn [compg]; rewrite Hpv, Hok; cbn [negb andb]; rewrite Es, Ep, En; cbn [tl_fb]; rewrite Eb; reflexivity.
 Qed.
 
 (* a query that emits no code does so in every mode *)
@@ -764,6 +980,16 @@ Proof.
       match type of Hc with context [comp_args ?C ?l ?p ?s] => destruct (comp_args C l p s) as [[[cas p'] s2]|] eqn:Ea; [|discriminate] end.
       inversion Hc; subst. simpl. lia.
     + apply lookup_cf_cp in Ef. destruct args; [|discriminate Ef]. inversion Hc; subst; simpl; lia.
+  - (* object *) destruct es as [|e es]; [inversion Hc; subst; simpl; lia|].
+    destruct (comp_object_inv _ _ _ _ _ _ _ _ _ _ Hc) as (cs & E & _). rewrite nvars_object.
+    apply comp_ents_nvars in E; [lia|]. eapply Forall_EntP_impl; [|exact IHes]. simpl. intros a Ha p n s c n' s' H. eapply Ha; eauto.
+  - (* bindp *) change (compg tco (QBindP s p b) ce tp cur pc nv sn = Some (cq, nv', sn')) in Hc.
+    destruct (comp_bindp_inv _ _ _ _ _ _ _ _ _ _ _ _ Hc) as (_ & _ & cs & n1 & s1 & cp & bs & n2 & cb & Es & Ep & _ & Eb & _).
+    apply IHs in Es. apply IHb in Eb. apply pcomp_nvars in Ep. cbn [nvars]. lia.
+  - (* indexq *) change (compg tco (QIndexQ t q) ce tp cur pc nv sn = Some (cq, nv', sn')) in Hc.
+    destruct (comp_indexq_inv _ _ _ _ _ _ _ _ _ _ _ Hc) as (_ & _ & _ & cb & nb & s1 & ca & na & Eb & Ea & _ & ->). simpl. lia.
+  - (* slice *) change (compg tco (QSlice t a b) ce tp cur pc nv sn = Some (cq, nv', sn')) in Hc.
+    destruct (comp_slice_inv _ _ _ _ _ _ _ _ _ _ _ _ Hc) as (_ & _ & _ & ca & na & s1 & cb & nb & s2 & ct & nt0 & Ea & Eb & Et & _ & ->). simpl. lia.
 Qed.
 End CF.
 Arguments comp_mono {tco} q ce {tp}.
